@@ -18,19 +18,19 @@ import (
 )
 
 type Scenario struct {
-	Side     string   `json:"side"`               // sink | visitor
-	Target   string   `json:"target"`             // encoder format or producer name
-	Options  []string `json:"options,omitempty"`  // json encoder options
-	Stream   string   `json:"stream,omitempty"`   // event ops (sink side, adapters)
-	Doc      string   `json:"doc_hex,omitempty"`  // parser producers
-	Entry    string   `json:"entry,omitempty"`
-	Cuts     []int    `json:"cuts,omitempty"`
-	Reads    []int    `json:"read_sizes,omitempty"`
-	BufSize  int      `json:"bufsize,omitempty"`
-	Type     string   `json:"go_type,omitempty"`  // fold producers
-	Value    string   `json:"go_value,omitempty"`
-	K        int      `json:"k"`
-	Total    int      `json:"total"`
+	Side    string   `json:"side"`              // sink | visitor
+	Target  string   `json:"target"`            // encoder format or producer name
+	Options []string `json:"options,omitempty"` // json encoder options
+	Stream  string   `json:"stream,omitempty"`  // event ops (sink side, adapters)
+	Doc     string   `json:"doc_hex,omitempty"` // parser producers
+	Entry   string   `json:"entry,omitempty"`
+	Cuts    []int    `json:"cuts,omitempty"`
+	Reads   []int    `json:"read_sizes,omitempty"`
+	BufSize int      `json:"bufsize,omitempty"`
+	Type    string   `json:"go_type,omitempty"` // fold producers
+	Value   string   `json:"go_value,omitempty"`
+	K       int      `json:"k"`
+	Total   int      `json:"total"`
 }
 
 type Engine struct{}
@@ -145,7 +145,7 @@ func sinkFaults(c *simkit.Choices, x *simkit.Ctx) *simkit.Violation {
 		}
 		if got == nil {
 			return &simkit.Violation{Kind: "error-lost", Site: "sink/" + string(f) + "/" + lastWriterOp(ops, k, f, opts),
-				Detail: fmt.Sprintf("the writer failed from write %d of %d (%d failed writes) but all %d events returned nil", k, total, fw.Failed, len(ops)),
+				Detail:   fmt.Sprintf("the writer failed from write %d of %d (%d failed writes) but all %d events returned nil", k, total, fw.Failed, len(ops)),
 				Scenario: sc}
 		}
 		_ = failedAt
